@@ -24,7 +24,8 @@ attempt `r.tag / 2`, or the answer to a digest re-send of that attempt);
 (2) a cached body is the body of that same exchange;
 (3) whatever is bound in the result / error slots was selected, read and unmarshalled from `h`
 (target supplied, state of `h`, `h` not a 204, `h` reads, transforms and unmarshals);
-(4) when the call reports no error the slots are EXACTLY what `h` calls for.
+(4) when the call reports no error (and not merely because the `OnError` hook cleared one) the
+slots are EXACTLY what `h` calls for.
 (The state predicates are functions of `h` by definition: `stateOf h`.) -/
 theorem binding_belongs_to_final_exchange (s : Stack) (r : Resp) (hr : callResp (run Fixes.all s) = some r)
     (h : Http) (hh : r.http = some h) :
@@ -33,11 +34,13 @@ theorem binding_belongs_to_final_exchange (s : Stack) (r : Resp) (hr : callResp 
     (r.slots.result = true → SuccessRHS s h) ∧
     (r.slots.error = some .errorReq → ErrReqRHS s h) ∧
     (r.slots.error = some .errorCommon → ErrCommonRHS s h) ∧
-    (r.err = none →
+    (r.err = none → s.hookAct ≠ .clear →
       (r.slots.result = true ↔ SuccessRHS s h) ∧
       (r.slots.error = some .errorReq ↔ ErrReqRHS s h) ∧
       (r.slots.error = some .errorCommon ↔ ErrCommonRHS s h)) := by
-  have hc := callDo_coh s r (callResp_callDo _ s r hr)
+  obtain ⟨r0, hr0, hrr⟩ := callResp_callDo _ s r hr
+  obtain ⟨k1, _, k3, k4, k5⟩ := afterHook_same s r0
+  have hc : Coh s r := by rw [hrr]; exact (callDo_coh s r0 hr0).of_eq k1 k3 k4 k5
   obtain ⟨s1, s2⟩ := success_bound_call s r hr
   obtain ⟨e1, e2, _, e4⟩ := error_bound_call s r hr
   have ex : ∀ P : Http → Prop, (∃ h', r.http = some h' ∧ P h') ↔ P h := by
@@ -49,9 +52,9 @@ theorem binding_belongs_to_final_exchange (s : Stack) (r : Resp) (hr : callResp 
   · intro hres; exact (ex _).mp (s1 hres)
   · intro hres; exact (ex _).mp (e1 hres)
   · intro hres; exact (ex _).mp (e2 hres)
-  · intro hne
-    obtain ⟨a, b⟩ := e4 hne
-    exact ⟨(s2 hne).trans (ex _), a.trans (ex _), b.trans (ex _)⟩
+  · intro hne hcl
+    obtain ⟨a, b⟩ := e4 hne hcl
+    exact ⟨(s2 hne hcl).trans (ex _), a.trans (ex _), b.trans (ex _)⟩
 
 /-- digest with auto-read off, an error target and a success target: 401 (error target bound,
 body cached lazily) then 200 — the returned response carries exchange 1, its cached body and its
